@@ -15,13 +15,15 @@ ASSUMPTIONS = ['determinism of tracked function bodies (programs of the generate
                'theorem covers the Core fragment; the remaining constructs of C01 rest on the oracle comparison (labelled partial)']
 
 def budget(ctx):
-    return (400, 1500) if ctx.tier == 'quick' else (20000, 200000)
+    return (2000, 6000) if ctx.tier == 'quick' else (20000, 200000)
 
 def ties(ctx):
     a, b = budget(ctx)
     return [run_seq(ctx, 'core', a, model='core', corpus='CORE-SEQ'),
             run_seq(ctx, 'core3', b, seed_offset=1, model='core3'),
-            run_seq(ctx, 'full', b, seed_offset=2, corpus='C10')]
+            run_seq(ctx, 'full', b, seed_offset=2, corpus='C10'),
+            run_seq(ctx, 'spec', b, seed_offset=3, model='corespec', corpus='CORESPEC'),
+            run_seq(ctx, 'acc', a, seed_offset=4, model='coreacc')]
 
 def search(ctx, reason):
     for prof, n in (('full', 300000), ('core3', 200000), ('core', 100000)):
